@@ -16,6 +16,7 @@ Nothing in here imports data_algebra.test_util.
 """
 from __future__ import annotations
 
+import collections
 import hashlib
 import itertools
 import json
@@ -608,6 +609,11 @@ def build_pipe(spec: Dict[str, Any], upto: Optional[int] = None):
         kw["qualifiers"] = dict(spec["quals"])
     ops = TableDescription(table_name=spec["table"], column_names=list(spec["cols"]), **kw)
     steps = spec["steps"] if upto is None else spec["steps"][:upto]
+    return apply_steps(ops, steps)
+
+
+def apply_steps(ops, steps):
+    """apply build_pipe steps to an existing pipeline object (keeps object sharing of `ops`)"""
     for op, p in steps:
         if op == "extend":
             ops = ops.extend(
@@ -632,7 +638,7 @@ def build_pipe(spec: Dict[str, Any], upto: Optional[int] = None):
             ops = ops.order_rows(list(p["columns"]), reverse=list(p.get("reverse") or []), limit=p.get("limit"))
         elif op in ("natural_join", "concat_rows"):
             b = p["b"]
-            bops = ops if b == "self" else build_pipe(b)
+            bops = ops if b == "self" else (b if not isinstance(b, dict) else build_pipe(b))
             if op == "natural_join":
                 on = p["on"]
                 if isinstance(on, list):
@@ -1160,3 +1166,162 @@ def sql_string_literal(dialect: str, quote: str, s: str) -> str:
     if SQL_DIALECTS[dialect]["backslash"]:
         body = s.replace("\\", "\\\\").replace(quote, quote + quote)
     return quote + body + quote
+
+
+# --------------------------------------------------------------------------------------------------
+# C15: internal names harvested from the CURRENT library source
+# --------------------------------------------------------------------------------------------------
+
+HARVEST_FILES = ["pandas_base.py", "polars_model.py", "sql_model.py", "near_sql.py", "SQLite.py", "view_representations.py"]
+
+
+def harvest_internal_names(repo_root: Optional[str] = None) -> Dict[str, Dict[str, Any]]:
+    """{pattern: {"kind": exact|prefix|suffix, "files": [...]}} of identifier-like string constants the
+    executors / the SQL generator use for their own temporary columns, sub-query aliases and tables.
+
+    Read from the source that is actually imported (data_algebra.__file__), with Python's ast:
+      * plain string constants that are identifiers and look internal (contain temp / tmp / _da_ / data_algebra /
+        orig_index, or are the one-letter sub-query aliases found as `) a` / `a.` / ` b ` inside SQL fragments);
+      * f-string skeletons and  "literal" + str(...)  /  name + "literal"  concatenations: the literal part is a
+        prefix (literal first) or suffix (literal last) of generated names (extend_N, x_tmp_right_col, ...)."""
+    import ast
+    import re
+
+    if repo_root is None:
+        import data_algebra
+
+        repo_root = os.path.dirname(os.path.abspath(data_algebra.__file__))
+    ident = re.compile(r"^[A-Za-z_][A-Za-z0-9_]*$")
+    internal = re.compile(r"temp|tmp|_da_|^_da|data_algebra|orig_index|^table_values$")
+    out: Dict[str, Dict[str, Any]] = {}
+
+    def add(pat, kind, fn):
+        if not pat or not ident.match(pat.strip("_") or "x"):
+            return
+        e = out.setdefault(pat + "|" + kind, {"pattern": pat, "kind": kind, "files": []})
+        if fn not in e["files"]:
+            e["files"].append(fn)
+
+    for fn in HARVEST_FILES:
+        path = os.path.join(repo_root, fn)
+        try:
+            with open(path) as f:
+                tree = ast.parse(f.read())
+        except OSError:
+            continue
+        doc_ids = set()
+        for node in ast.walk(tree):  # skip docstrings
+            if isinstance(node, (ast.FunctionDef, ast.ClassDef, ast.Module, ast.AsyncFunctionDef)) and node.body:
+                b0 = node.body[0]
+                if isinstance(b0, ast.Expr) and isinstance(b0.value, ast.Constant) and isinstance(b0.value.value, str):
+                    doc_ids.add(id(b0.value))
+        for node in ast.walk(tree):
+            if isinstance(node, ast.Constant) and isinstance(node.value, str) and id(node) not in doc_ids:
+                s = node.value
+                if ident.match(s) and internal.search(s):
+                    add(s, "exact", fn)
+                # one-letter aliases inside SQL fragments:  ") a"  "a."  " b"
+                for m in re.finditer(r"(?:^|[\s)])([a-z])(?=$|[\s.])", s):
+                    if ("." in s or ")" in s or s.strip() == m.group(1)) and len(s) <= 12 and any(ch in s for ch in ").") :
+                        add(m.group(1), "exact", fn)
+            if isinstance(node, ast.JoinedStr):
+                parts = node.values
+                if parts and isinstance(parts[0], ast.Constant) and isinstance(parts[0].value, str) and len(parts) > 1:
+                    lit = parts[0].value
+                    if ident.match(lit) and lit.endswith("_"):
+                        add(lit, "prefix", fn)
+                if parts and isinstance(parts[-1], ast.Constant) and isinstance(parts[-1].value, str) and len(parts) > 1:
+                    lit = parts[-1].value
+                    if lit.startswith("_") and ident.match(lit):
+                        add(lit, "suffix", fn)
+            if isinstance(node, ast.BinOp) and isinstance(node.op, ast.Add):
+                l, r = node.left, node.right
+                if isinstance(l, ast.Constant) and isinstance(l.value, str) and ident.match(l.value) and l.value.endswith("_") and not isinstance(r, ast.Constant):
+                    add(l.value, "prefix", fn)
+                if isinstance(r, ast.Constant) and isinstance(r.value, str) and r.value.startswith("_") and ident.match(r.value) and not isinstance(l, ast.Constant):
+                    add(r.value, "suffix", fn)
+            if isinstance(node, ast.keyword) and node.arg in ("suffix", "suffixes", "lsuffix", "rsuffix"):
+                for c in ast.walk(node.value):
+                    if isinstance(c, ast.Constant) and isinstance(c.value, str) and c.value.startswith("_") and ident.match(c.value):
+                        add(c.value, "suffix", fn)
+    return out
+
+
+def instantiate_names(patterns: Dict[str, Dict[str, Any]], columns: Sequence[str], numbers: Sequence[int] = (0, 1, 2)) -> List[Tuple[str, str]]:
+    """[(concrete name, pattern it comes from)]: exact names as they are, prefixes + small numbers,
+    column name + suffixes"""
+    out, seen = [], set()
+    for key in sorted(patterns):
+        p = patterns[key]
+        if p["kind"] == "exact":
+            cands = [p["pattern"]]
+        elif p["kind"] == "prefix":
+            cands = [p["pattern"] + str(n) for n in numbers]
+        else:
+            cands = [c + p["pattern"] for c in columns]
+        for c in cands:
+            if c not in seen:
+                seen.add(c)
+                out.append((c, p["pattern"] + ("*" if p["kind"] == "prefix" else "") if p["kind"] != "suffix" else "*" + p["pattern"]))
+    return out
+
+
+# --------------------------------------------------------------------------------------------------
+# C17: reference record transforms on plain tables (independent of data_algebra)
+# --------------------------------------------------------------------------------------------------
+# a record specification here is plain data:
+#   {"control": {col: [values]}, "record_keys": [...], "control_table_keys": [...]}
+# tables are (columns, rows) pairs
+
+
+def rs_content_keys(rs) -> List[str]:
+    """content keys in the library's order: value columns left to right, rows top to bottom"""
+    keys = rs["control_table_keys"]
+    out = []
+    for c, vals in rs["control"].items():
+        if c not in keys:
+            out += list(vals)
+    return out
+
+
+def ref_blocks_to_rowrecs(rs, cols: Sequence[str], rows: Sequence[Sequence[Any]]):
+    """one row per record: record keys + one column per content key (missing cells -> None)"""
+    cols = list(cols)
+    rk = list(rs["record_keys"])
+    ck = list(rs["control_table_keys"])
+    ctrl = rs["control"]
+    n = len(next(iter(ctrl.values())))
+    vcols = [c for c in ctrl if c not in ck]
+    where = {}
+    for i in range(n):
+        kv = tuple(ctrl[c][i] for c in ck)
+        for vc in vcols:
+            where[(kv, vc)] = ctrl[vc][i]
+    recs: Dict[Tuple, Dict[str, Any]] = collections.OrderedDict()
+    for r in rows:
+        d = dict(zip(cols, r))
+        rid = tuple(d[c] for c in rk)
+        rec = recs.setdefault(rid, {})
+        kv = tuple(d[c] for c in ck)
+        for vc in vcols:
+            if (kv, vc) in where:
+                rec[where[(kv, vc)]] = d[vc]
+    ckeys = rs_content_keys(rs)
+    out_rows = [tuple(rid) + tuple(rec.get(k) for k in ckeys) for rid, rec in recs.items()]
+    return rk + ckeys, out_rows
+
+
+def ref_rowrecs_to_blocks(rs, cols: Sequence[str], rows: Sequence[Sequence[Any]]):
+    """one block (one row per control-table row) per input row"""
+    cols = list(cols)
+    rk = list(rs["record_keys"])
+    ctrl = rs["control"]
+    ccols = list(ctrl.keys())
+    ck = list(rs["control_table_keys"])
+    n = len(next(iter(ctrl.values())))
+    out_rows = []
+    for r in rows:
+        d = dict(zip(cols, r))
+        for i in range(n):
+            out_rows.append(tuple(d[c] for c in rk) + tuple(ctrl[c][i] if c in ck else d.get(ctrl[c][i]) for c in ccols))
+    return rk + ccols, out_rows
